@@ -97,7 +97,7 @@ def repv(n, f):
 
 # ---------------------------------------------------------------- items
 def Open(tag="el", define=(), sw=NOE, cs=NOE, cond=NOE, rep=None, sub=None, omit=None,
-         sattr=(), dattr=(), oe=None, name=None):
+         sattr=(), dattr=(), oe=None, name=None, bools=()):
     """define: list of (global?, name, expr); rep: (global?, name, expr);
     sub: (mode, structure?, expr); omit: True | expr; sattr: list of names;
     dattr: list of (name, expr); oe: (structure?, expr)"""
@@ -108,8 +108,9 @@ def Open(tag="el", define=(), sw=NOE, cs=NOE, cond=NOE, rep=None, sub=None, omit
         "rep": {"m": "yes", "g": bool(rep[0]), "n": rep[1], "e": rep[2]} if rep else {"m": "no", "g": False, "n": "", "e": NOE},
         "sub": {"m": sub[0], "s": bool(sub[1]), "e": sub[2]} if sub else {"m": "none", "s": False, "e": NOE},
         "omit": ({"m": "yes", "e": NOE} if omit is True else {"m": "expr", "e": omit}) if omit is not None else {"m": "no", "e": NOE},
-        "sattr": [{"n": n, "key": n.lower()} for n in sattr],
-        "dattr": [{"n": n, "key": n.lower(), "e": e} for n, e in dattr],
+        "sattr": [({"n": n, "key": n.lower()} if isinstance(n, str) else
+                   {"n": n[0], "key": n[0].lower(), "lex": n[1]}) for n in sattr],
+        "dattr": [{"n": n, "key": n.lower(), "e": e, "d": n == "", "b": n in bools} for n, e in dattr],
         "oe": {"m": "yes", "s": bool(oe[0]), "e": oe[1]} if oe else {"m": "no", "s": False, "e": NOE},
     }
     if name:
@@ -131,8 +132,8 @@ def Text(*parts):
     return {"k": "text", "parts": ps}
 
 
-def program(items, dom, init=None, names=(), cfg=None, fam=""):
-    return {"items": list(items), "dom": dom, "init": init or {}, "cfg": cfg or {}, "fam": fam}
+def program(items, dom, init=None, names=(), cfg=None, fam="", bools=()):
+    return {"items": list(items), "dom": dom, "init": init or {}, "cfg": cfg or {}, "fam": fam, "bools": list(bools)}
 
 
 # ---------------------------------------------------------------- emission
@@ -141,7 +142,7 @@ def _strip_for_tla(o):
     if isinstance(o, dict):
         if o.get("x") == "lit":
             return {"x": "lit"}
-        return {k: _strip_for_tla(v) for k, v in o.items() if k not in ("name", "cfg", "fam")}
+        return {k: _strip_for_tla(v) for k, v in o.items() if k not in ("name", "cfg", "fam", "bools", "lex", "xattrs", "selfclose")}
     if isinstance(o, (list, tuple)):
         return [_strip_for_tla(x) for x in o]
     return o
@@ -154,7 +155,8 @@ def to_tla(p, names):
     nk = max([0] + list(p["dom"].keys()))
     dom = [TLASet(_freeze(v) for v in p["dom"].get(k, [])) for k in range(1, nk + 1)]
     init = {n: p["init"].get(n, UNDEF) for n in names}
-    return {"items": q["items"], "dom": dom, "init": init}
+    from .tla import TLASet as _S
+    return {"items": q["items"], "dom": dom, "init": init, "bools": _S(p.get("bools", ()))}
 
 
 class _Frozen(dict):
